@@ -240,6 +240,11 @@ def gen_cases(rng, tier):
 		path = rand_path(rng, length)
 		cases.append({
 			'kind': 'split', 'curve': CURVES[k % 2], 'seed': rand_seed(rng, k).hex(), 'path': path, 'at': rng.randrange(length + 1)})
+	# paths of any length: far longer than the interpreter's recursion limit, derived in one call, from the middle and index by index
+	for k in range(2 if quick else 6):
+		path = rand_path(rng, 1200 + 150 * k)
+		for at in (len(path), len(path) // 2, 1):
+			cases.append({'kind': 'split', 'curve': CURVES[k % 2], 'seed': rand_seed(rng, k).hex(), 'path': path, 'at': at, 'nomodel': True})
 	# indices outside [0, 2^31): already-hardened (accepted, not hardened twice) and unwritable ones (OverflowError)
 	for k in range(4 if quick else 50):
 		path = rand_path(rng, rng.randrange(3))
@@ -273,6 +278,14 @@ def gen_cases(rng, tier):
 		cases.append({
 			'kind': 'mnemonic', 'curve': CURVES[k % 2], 'mnemonic': rand_mnemonic(rng) if k % 5 else rand_passphrase(rng, False),
 			'passphrase': rand_passphrase(rng, k % 3 == 0), 'in_model': False})
+	# mnemonics are opaque strings: white space at either end, other separators and doubled blanks are part of the PBKDF2 password
+	for k in range(10 if quick else 60):
+		words = rand_mnemonic(rng).split(' ')
+		variant = [
+			' '.join(words) + '\n', ' ' + ' '.join(words), ' '.join(words) + ' ', '\t'.join(words), '\n'.join(words), '  '.join(words),
+			' '.join(words[:3]) + '  ' + ' '.join(words[3:]), ' '.join(words) + '\r\n', '\u3000'.join(words), ' '.join(words).upper()][k % 10]
+		cases.append({
+			'kind': 'mnemonic', 'curve': CURVES[k % 2], 'mnemonic': variant, 'passphrase': rand_passphrase(rng, k % 3 == 0), 'in_model': False})
 	# call sequences on one factory instance (state kept between calls must not leak from one call into the next)
 	for k in range(15 if quick else 200):
 		cases.append(rand_session(rng, k))
@@ -442,6 +455,8 @@ def model(case):
 	if kind in ('derive', 'outside'):
 		return f'render (derive_path_sha512 {zlist(case["path"])} {root_expr(case)})'
 	if kind == 'split':
+		if case.get('nomodel'):
+			return None
 		first, second = case['path'][:case['at']], case['path'][case['at']:]
 		return f'render (bind (derive_path_sha512 {zlist(first)} {root_expr(case)}) (derive_path_sha512 {zlist(second)}))'
 	if kind == 'root':
